@@ -174,10 +174,29 @@ func (e *Engine) discharge(o *Oblig, dir string, timeoutSec int, thorough bool) 
 		for vi, variant := range prunedVariants(text) {
 			pf := strings.TrimSuffix(fname, ".smt2") + fmt.Sprintf(".pruned%d.smt2", vi+1)
 			os.WriteFile(pf, []byte(variant), 0o644)
-			pr := runSolver(solvers[0], pf, 3, "")
-			o.Output += fmt.Sprintf("\n[%s pruned%d %.2fs] %s", solvers[0].name, vi+1, pr.secs, strings.TrimSpace(firstLines(pr.output, 1)))
+			// all solvers race on the pruned variant: which one copes with the remaining quantifiers varies
+			type pres struct {
+				sp solverSpec
+				r  runResult
+			}
+			pch := make(chan pres, len(solvers))
+			pctx, pcancel := context.WithCancel(context.Background())
+			for _, sp := range solvers {
+				go func(sp solverSpec) { pch <- pres{sp, runSolverCtx(pctx, sp, pf, 5)} }(sp)
+			}
+			var pr runResult
+			prName := solvers[0].name
+			for range solvers {
+				x := <-pch
+				if x.r.verdict == "unsat" && pr.verdict != "unsat" {
+					pr, prName = x.r, x.sp.name
+					pcancel()
+				}
+			}
+			pcancel()
+			o.Output += fmt.Sprintf("\n[%s pruned%d %.2fs] %s", prName, vi+1, pr.secs, strings.TrimSpace(firstLines(pr.output, 1)))
 			if pr.verdict == "unsat" {
-				o.Verdict, o.Solver, o.Secs, o.Agree = "unsat", solvers[0].name+fmt.Sprintf("(pruned%d)", vi+1), pr.secs, 1
+				o.Verdict, o.Solver, o.Secs, o.Agree = "unsat", prName+fmt.Sprintf("(pruned%d)", vi+1), pr.secs, 1
 				o.SMTFile = pf
 				if !thorough {
 					return
@@ -241,6 +260,34 @@ func (e *Engine) discharge(o *Oblig, dir string, timeoutSec int, thorough bool) 
 		total += x.r.secs
 	}
 	o.Agree = agree
+	if o.Verdict == "" && o.lemmaFile == "" {
+		// stage 3 (only reached when nothing answered): the short stages may have been starved on a loaded machine - the
+		// pruned variants again with a long limit, on every solver. A goal that is really not provable costs this extra
+		// time once; a goal that is provable must not be reported because the machine was busy.
+		long := timeoutSec * 3
+		for vi, variant := range prunedVariants(text) {
+			pf := strings.TrimSuffix(fname, ".smt2") + fmt.Sprintf(".pruned%d.smt2", vi+1)
+			os.WriteFile(pf, []byte(variant), 0o644)
+			ch3 := make(chan res, len(solvers))
+			c3, cancel3 := context.WithCancel(context.Background())
+			for _, sp := range solvers {
+				go func(sp solverSpec) { ch3 <- res{sp, runSolverCtx(c3, sp, pf, long)} }(sp)
+			}
+			for range solvers {
+				x := <-ch3
+				if x.r.verdict == "unsat" && o.Verdict == "" {
+					o.Verdict, o.Solver, o.Secs, o.Agree = "unsat", x.sp.name+fmt.Sprintf("(pruned%d,slow)", vi+1), x.r.secs, 1
+					o.SMTFile = pf
+					cancel3()
+				}
+			}
+			cancel3()
+			if o.Verdict == "unsat" {
+				break
+			}
+			os.Remove(pf)
+		}
+	}
 	if o.Verdict == "" {
 		o.Verdict = "unknown"
 		o.Secs = total
